@@ -23,7 +23,7 @@ for seed in sorted(R, key=lambda s: (s.split('-')[0], int(s.split('-')[1]))):
             meta = {}
     what = short(meta.get('what_breaks', ''), 170).replace('|', '/')
     own_runs = [r for r in e['runs'] if r['check'] == own]
-    first = next((r for r in own_runs if r['phase'] == 'first'), None)
+    first = next((r for r in own_runs if r['phase'].endswith('first')), None) or (own_runs[0] if own_runs else None)
     last = own_runs[-1] if own_runs else None
     cross = sorted(set(r['check'] for r in e['runs'] if r['check'] != own and r['verdict'] == 'CAUGHT'))
     def fmt(r):
